@@ -52,6 +52,35 @@ pub fn run_job(line: &str) -> String {
                 Err(ps) => format!("panic {}", ps.site),
             }
         }
+        Some("cycle") if p.len() == 2 => {
+            let data = hex_decode(p[1]);
+            let o = crate::corpus::opts_for(None);
+            let tree = match pan::catch(|| usvg::Tree::from_data(&data, &o)) {
+                Ok(Ok(t)) => t,
+                Ok(Err(e)) => return format!("err {}", format!("{}", e).replace(' ', "_")),
+                Err(ps) => return format!("panic parse {}", ps.site),
+            };
+            // the independent witness: same id, geometry and paint
+            let witness = match tree.node_by_id("witness") {
+                Some(usvg::Node::Path(p)) => {
+                    let bb = p.bounding_box();
+                    let fill_ok = matches!(p.fill().map(|f| f.paint()), Some(usvg::Paint::Color(c)) if c.red == 0 && c.green == 0 && c.blue == 255);
+                    fill_ok && (bb.x() - 25.0).abs() < 0.01 && (bb.y() - 25.0).abs() < 0.01 && (bb.width() - 10.0).abs() < 0.01 && (bb.height() - 10.0).abs() < 0.01
+                }
+                _ => false,
+            };
+            let Some(mut pm) = tiny_skia::Pixmap::new(40, 40) else { return "err canvas".to_string() };
+            match pan::catch(|| resvg::render(&tree, tiny_skia::Transform::identity(), &mut pm.as_mut())) {
+                Ok(()) => {
+                    // the witness must also be painted
+                    let i = ((30 * 40 + 30) * 4) as usize;
+                    let d = pm.data();
+                    let painted = d[i + 2] == 255 && d[i + 3] == 255;
+                    format!("ok witness={}", (witness && painted) as u8)
+                }
+                Err(ps) => format!("panic render {}", ps.site),
+            }
+        }
         _ => "bad-job".to_string(),
     }
 }
